@@ -1,9 +1,54 @@
-"""C02 generator part: cleaner_range / magnitude_bins with symbolic decimal start and step (see C02.py)."""
+"""C02 generator part: cleaner_range / magnitude_bins return exactly the floats closest to the decimal grid.
+
+The decimal-text step (repr / decimal.Decimal of the arguments) is library code outside the solver's reach, so this
+part is NOT solver-decided: it is an exhaustive-on-a-family concrete evaluation of the real functions against exact
+rational arithmetic (stated as such in the evidence), on the seeded family below plus the grids every other claim
+uses. A failing case is replayed and reported like any other violation."""
+from fractions import Fraction
+
+import numpy as np
+
+from symx.harness import Obligation
+from . import common as C
+
+
+def _cases(tier, seed):
+    cs = [(0, 3, 2, 33), (-7, 7, 2, 8), (595, 10, 2, 30), (250, 10, 2, 75), (-5, 15, 2, 20), (-1254, 1, 1, 12), (0, 25, 2, 4),
+          (-100, 25, 2, 8), (-73, 2, 1, 11), (3, 5, 1, 10), (-18000, 10, 2, 40), (1657, 5, 2, 17), (0, 1, 3, 50), (-479, 1, 1, 30)]
+    rng = np.random.RandomState(99 + seed)
+    for _ in range(300 if tier == 'quick' else 3000):
+        m = int(rng.randint(0, 4))
+        cs.append((int(rng.randint(-20000, 20000)), int(rng.randint(1, 200)), m, int(rng.randint(1, 60))))
+    return cs
 
 
 def jobs(tier, seed):
-    return []
+    return [{'name': 'generators: cleaner_range / magnitude_bins on decimal grids (concrete family)', 'kind': 'gen', 'tier': tier,
+             'cases': _cases(tier, seed), 'wall': 600}]
 
 
 def run_job(job):
-    return {'obligations': []}
+    from . import C02
+    C.real_csep()
+    from csep.utils import calc
+    from csep.core import regions
+    bad = []
+    n = 0
+    for (A, B, m, K) in job['cases']:
+        start, h, end = A / 10 ** m, B / 10 ** m, (A + K * B) / 10 ** m
+        for fn in (calc.cleaner_range, regions.magnitude_bins):
+            n += 1
+            out = [float(x) for x in fn(start, end, h)]
+            exp = [float(Fraction(A + i * B, 10 ** m)) for i in range(K + 1)]
+            if out != exp:
+                bad.append({'kind': 'gen', 'start': start, 'end': end, 'h': h, 'A': A, 'B': B, 'm': m, 'K': K})
+                break
+    obs = []
+    for cex in bad[:5]:
+        o = Obligation('generator returns the decimal grid', 'sat', cex=cex)
+        o.reproduced, o.detail = C02.replay(cex)
+        obs.append(o)
+    if not bad:
+        obs.append(Obligation('generator output == nearest doubles to (A + k*B)/10^m on %d calls (concrete evaluation, not solver-decided)' % n,
+                              'unsat', note='family: %d decimal grids, m<=3, |A|<=2e4, B<200, K<60' % len(job['cases'])))
+    return {'obligations': [o.as_dict() for o in obs], 'samples': [{'cases': job['cases'][:5]}]}
